@@ -1401,6 +1401,15 @@ func TestVerifC05(t *testing.T) {
 	defer s.Close()
 	vfRoot0 = t.TempDir()
 	d := &vfDisk{s: s, r: vfutil.NewRand(vfutil.Seed())}
+	// thorough tier: the binary is built with -race; reports of the race runtime become results
+	rl := vfutil.StartRaceLog("C05")
+	defer rl.Finish(s, func() map[string]interface{} {
+		tr := d.trace
+		if len(tr) > 40 {
+			tr = tr[len(tr)-40:]
+		}
+		return map[string]interface{}{"backend": "disk", "steps": strings.Join(tr, " ; ")}
+	})
 	wd := vfWatchdog(s, time.Duration(vfutil.Scale(150, 1500))*time.Second, func() string {
 		tr := d.trace
 		if len(tr) > 40 {
@@ -1427,7 +1436,7 @@ func TestVerifC05(t *testing.T) {
 			}
 		}
 	}
-	cases := vfutil.Scale(100, 1200)
+	cases := vfutil.Scale(100, 600)
 	if v, err := strconv.Atoi(os.Getenv("VERIF_CASES")); err == nil {
 		cases = v
 	}
